@@ -61,10 +61,19 @@ Dg ==
     ELSE \* dropped
         IF w.k # "drop" THEN Drift("drop:" \o w.k \o "-allowed:" \o Class(d)) ELSE Ok
 
+\* a byte-level mutant of a datagram: its class is unknown; whatever it is, a forwarded datagram goes to the
+\* outer destination and a rebuilt one to the previous hop
+Mut == IF R.panic = 1 THEN Bad("mutant:panic")
+       ELSE IF R.k = "fwd" /\ R.host # R.outer THEN Bad("reflect:mutant-forwarded-to-non-outer-destination")
+       ELSE IF R.k = "fwd" /\ ~on THEN Bad("off:mutant-forwarded")
+       ELSE IF R.k = "reply" /\ (R.host # "P" \/ R.port # 30042) THEN Bad("reply:mutant-answered-not-to-previous-hop")
+       ELSE Ok
+
 Step == /\ l <= Len(Trace)
         /\ l' = l + 1
         /\ CASE R.ev = "reset" -> on' = (R.on = 1) /\ UNCHANGED nbad
              [] R.ev = "dg" -> Dg
+             [] R.ev = "mut" -> Mut
              [] OTHER -> Bad("no-spec-action:" \o R.ev)
 
 Done == /\ l = Len(Trace) + 1
